@@ -909,7 +909,23 @@ impl<'a> Exec<'a> {
         match catch(|| w.garbage_collect_files().wait()) {
             Err(p) => self.api_panic("garbage_collect_files", p),
             Ok(Err(e)) => self.api_err("garbage_collect_files", e.to_string()),
-            Ok(Ok(_)) => {}
+            Ok(Ok(_)) => {
+                // C10 with the writer still alive: a commit has returned, no merge can be running
+                // (no policy merges, no pending explicit merge), nothing is uncommitted, GC has run
+                if !self.fault_profile
+                    && self.case.cfg.merge_policy == MergePol::NoMerge
+                    && self.pending_merges.is_empty()
+                    && self.txn_ops == 0
+                    && self.out.probes.get("merge_explicit_started").is_none()
+                    && self.out.violations.is_empty()
+                {
+                    sched::quiesce();
+                    self.out.probe("exact_files_with_live_writer_checked");
+                    if let Err(msg) = check_exact_files(&self.dir, &self.index, &BTreeSet::new()) {
+                        self.out.violate("C10", "exact_files_after_gc_with_live_writer", msg);
+                    }
+                }
+            }
         }
     }
 
